@@ -249,11 +249,17 @@ func runC17(c *Ctx) {
 						}
 					}
 					if nAbs == 0 && d < 2 && host.Object() != nil && !host.Object().Exported() {
+						// the helper's own conditions, rendered with each call's arguments (the option name may be one of
+						// them), together with the conditions under which it is called
 						sites := 0
 						for _, hf := range fs {
 							for _, hc := range callsTo(hf, host) {
 								sites++
-								check(c.condsOf(hc.Block()), short(hf.String())+" at "+c.pos(hc.Pos()), hf, d+1)
+								old := c.condEnv
+								c.condEnv = c.calleeEnv(&hc.Call, host, nil)
+								inHelper := c.condsOf(cl.Block())
+								c.condEnv = old
+								check(append(inHelper, c.condsOf(hc.Block())...), short(hf.String())+" at "+c.pos(hc.Pos()), hf, d+1)
 							}
 						}
 						if sites > 0 {
@@ -402,14 +408,17 @@ func runC17(c *Ctx) {
 	if f := c.Fn("docutil", "GetTransformationInfoForUnpublished"); f != nil && rr != nil {
 		okCall := false
 		for _, rc := range callsTo(resolve, rr) {
-			env := c.calleeEnv(&rc.Call, rr, nil)
-			for _, cl := range callsTo(rr, f) {
+			env0 := c.calleeEnv(&rc.Call, rr, nil)
+			for _, tc := range c.treeCalls(rr, env0, 0, func(cl *ssa.Call, env Env) bool { return cl.Call.StaticCallee() == f }) {
+				cl, env := tc.call, tc.env
 				a := cl.Call.Args
 				if len(a) != 5 {
 					continue
 				}
 				sfx, init := c.Path(a[3], env), c.Path(a[4], env)
-				okSfx := strings.HasPrefix(sfx, "vdr/sidetreelongform/dochandler.getSuffix(") && strings.HasSuffix(sfx, "#0") && strings.Contains(sfx, ".ParseDID[")
+				// the suffix of the requested DID — or the parsed operation's, which the function has compared with it (C17.G1)
+				okSfx := (strings.HasPrefix(sfx, "vdr/sidetreelongform/dochandler.getSuffix(") && strings.HasSuffix(sfx, "#0") && strings.Contains(sfx, ".ParseDID[")) ||
+					(strings.HasSuffix(sfx, "#0.UniqueSuffix") && strings.Contains(sfx, ".Parse["))
 				if c.Path(a[0], env) == nsField && c.Path(a[1], env) == `""` && c.Path(a[2], env) == `""` && okSfx && init == `$1[(strings.LastIndex($1,":") + 1):]` {
 					okCall = true
 				}
@@ -568,12 +577,23 @@ func runC17(c *Ctx) {
 		c.Analysed(po)
 		okInit, okSfx := false, false
 		got := ""
-		for _, cl := range callsTo(po, tiF) {
+		for _, tc := range c.treeCalls(po, nil, 0, func(cl *ssa.Call, env Env) bool { return cl.Call.StaticCallee() == tiF }) {
+			cl := tc.call
 			a := cl.Call.Args
 			if len(a) != 5 {
 				continue
 			}
-			t := normalize(c.ValueTerm(po, a[4]))
+			// the initial-state argument as a value of ProcessOperation's own frame (the call may sit in a helper that is
+			// handed the value)
+			init := a[4]
+			if tc.fn != po {
+				p, isP := init.(*ssa.Parameter)
+				if !isP || tc.top.Call.StaticCallee() != tc.fn || paramIndex(p) >= len(tc.top.Call.Args) {
+					continue
+				}
+				init = tc.top.Call.Args[paramIndex(p)]
+			}
+			t := normalize(c.ValueTerm(po, init))
 			got = t.String()
 			// the request bytes: the parameter, or the bytes the parser hands back unchanged (C07.P1 OperationRequest)
 			for alt := range altSet(t) {
@@ -584,7 +604,7 @@ func runC17(c *Ctx) {
 					break
 				}
 			}
-			sp := c.Path(a[3], nil)
+			sp := c.Path(a[3], tc.env)
 			okSfx = strings.HasSuffix(sp, "#0.UniqueSuffix") && strings.Contains(sp, ".Parse[")
 		}
 		c.Check("C17.P2", "process:initial-state=b64(JCS(request))", okInit, po.Pos(), "the initial state of the returned long-form DID is "+got+" (expected b64(JCS(request bytes)): ResolveDocument accepts only the canonical encoding)")
